@@ -376,7 +376,10 @@ class LessParser(object):
     def p_mixin(self, p):
         """ mixin_decl                : open_mixin declaration_list brace_close
         """
-        self.scope.add_mixin(Mixin(list(p)[1:], p.lineno(3)).parse(self.scope))
+        if p[1][0].parsed:
+            self.scope.add_mixin(
+                Mixin(list(p)[1:], p.lineno(3)).parse(self.scope))
+        # (otherwise its name could not be resolved, see p_open_mixin)
         self.scope.pop()
         p[0] = None
 
@@ -384,7 +387,13 @@ class LessParser(object):
         """ open_mixin                : identifier t_popen mixin_args_list t_pclose brace_open
                                       | identifier t_popen mixin_args_list t_pclose mixin_guard brace_open
         """
-        p[1].parse(self.scope)
+        try:
+            p[1].parse(self.scope)
+        except SyntaxError as e:
+            # (an unknown variable in the name, or in the selector of the
+            # enclosing rule) raised from a grammar action it would make yacc
+            # drop the definition, and an unclosed block after it, silently
+            self.handle_error(e, p.lineno(2))
         self.scope.current = p[1]
         p[0] = [p[1], p[3]]
         if len(p) > 6:
